@@ -402,3 +402,4 @@ def run(ctx):
 
     # shared with C18.b: the validating setters refuse before they store (a refused negative scaling leaves nothing behind)
     ctx.borrow("C18", ("HistogramBase.frequencies.setter", "HistogramBase.errors2.setter"), "C06.d", floor=4)
+    ctx.borrow("C05", ("HistogramCollection.sum",), "C06.a", floor=2)
